@@ -208,8 +208,21 @@ def reconnectInclusion (evs : List Ev) (peer : String) : List String := Id.run d
           match st with
           | none => pure ()
           | some s =>
+            -- the manager's log line lags the action by scheduling noise; an exit from Idle is timed exactly by the
+            -- dialler's own `dial` event, emitted when the socket of that attempt is created
+            let tObs : Nat :=
+              if frm == "idle" && to == "connect" then
+                -- (the dial event nearest in time: it may be recorded just before or just after the line)
+                let ds := (evs.filter fun d => d.peer == peer && d.ev == "dial").map (·.t)
+                let near := ds.foldl (fun (best : Option Nat) t =>
+                  let dist (x : Nat) := if x ≤ e.t then e.t - x else x - e.t
+                  match best with | some b => if dist t < dist b then some t else some b | none => some t) none
+                match near with
+                | some t => if (if t ≤ e.t then e.t - t else t - e.t) < 50000000 then min t e.t else e.t
+                | none => e.t
+              else e.t
             -- advance time to the observation (plus the tolerance), taking silent connect-retry redials that are due
-            let s1 : RSess := { s with now := max s.now (e.t + eps) }
+            let s1 : RSess := { s with now := max s.now (tObs + eps) }
             let s2 := if s1.st == .connect && due s1.crDl s1.now then (rstep s1 .crFireRedial).getD s1 else s1
             let ev : Option REv :=
               if frm == "idle" && to == "connect" then some .idleFire
@@ -226,12 +239,12 @@ def reconnectInclusion (evs : List Ev) (peer : String) : List String := Id.run d
               | some _ =>
                 -- enabled within the tolerance: take the step at the observed time (so that the deadlines it arms
                 -- are not inflated by the tolerance)
-                let s3 : RSess := { s2 with now := e.t,
-                                            idleDl := if ev == .idleFire then s2.idleDl.map (min · e.t) else s2.idleDl,
-                                            crDl := if ev == .crFireActive || ev == .crFireRedial then s2.crDl.map (min · e.t) else s2.crDl }
+                let s3 : RSess := { s2 with now := tObs,
+                                            idleDl := if ev == .idleFire then s2.idleDl.map (min · tObs) else s2.idleDl,
+                                            crDl := if ev == .crFireActive || ev == .crFireRedial then s2.crDl.map (min · tObs) else s2.crDl }
                 st := (rstep s3 ev)
               | none =>
-                fails := fails ++ [s!"C11 timed model: out-FSM transition {frm} => {to} at {e.t / 1000000} ms is not enabled (idle-hold deadline {s2.idleDl.getD 0 / 1000000} ms, connect-retry deadline {s2.crDl.getD 0 / 1000000} ms)"]
+                fails := fails ++ [s!"C11 timed model: out-FSM transition {frm} => {to} at {e.t / 1000000} ms (observed at {tObs / 1000000} ms) is not enabled (idle-hold deadline {s2.idleDl.getD 0 / 1000000} ms, connect-retry deadline {s2.crDl.getD 0 / 1000000} ms)"]
                 st := none
     return fails
 
